@@ -55,11 +55,17 @@ impl IdentifierExtractor {
                 let mut current_pos = m.start();
 
                 for (i, part) in parts.iter().enumerate() {
-                    if !part.is_empty() {
+                    // An identifier cannot start with a hyphen (the pattern above starts with a
+                    // letter or an underscore), so neither can a dot-separated segment of one:
+                    // `cfg.-foo_bar_wide` holds the identifier `foo_bar_wide`, not `-foo_bar_wide`,
+                    // which would be taken for a hyphenated name. The recorded start moves with it.
+                    let segment = part.trim_start_matches('-');
+                    if !segment.is_empty() {
+                        let segment_start = current_pos + (part.len() - segment.len());
                         identifiers.push((
-                            current_pos,
-                            current_pos + part.len(),
-                            (*part).to_string(),
+                            segment_start,
+                            segment_start + segment.len(),
+                            segment.to_string(),
                         ));
                     }
                     current_pos += part.len() + 1; // Account for the dot separator
